@@ -13,6 +13,7 @@ import (
 	"bytes"
 	"errors"
 	"sort"
+	"sync/atomic"
 
 	"github.com/utreexo/utreexo"
 )
@@ -20,12 +21,25 @@ import (
 type orderedLeaves struct {
 	m   map[Hash]uint64
 	ops int
+	// suspension of the operation that makes the next look-up (lock schedules): when armed, the
+	// first Get signals `paused' and waits for `release'
+	armed   atomic.Bool
+	paused  chan struct{}
+	release chan struct{}
 }
 
-func (o *orderedLeaves) Get(k Hash) (uint64, bool) { o.ops++; v, ok := o.m[k]; return v, ok }
-func (o *orderedLeaves) Put(k Hash, v uint64)     { o.ops++; o.m[k] = v }
-func (o *orderedLeaves) Delete(k Hash)            { o.ops++; delete(o.m, k) }
-func (o *orderedLeaves) Length() int              { return len(o.m) }
+func (o *orderedLeaves) Get(k Hash) (uint64, bool) {
+	if o.armed.CompareAndSwap(true, false) {
+		close(o.paused)
+		<-o.release
+	}
+	o.ops++
+	v, ok := o.m[k]
+	return v, ok
+}
+func (o *orderedLeaves) Put(k Hash, v uint64) { o.ops++; o.m[k] = v }
+func (o *orderedLeaves) Delete(k Hash)        { o.ops++; delete(o.m, k) }
+func (o *orderedLeaves) Length() int          { return len(o.m) }
 func (o *orderedLeaves) ForEach(fn func(Hash, uint64) error) error {
 	keys := make([]Hash, 0, len(o.m))
 	for k := range o.m {
@@ -55,9 +69,9 @@ type orderedNodes struct {
 var errScan = errors.New("node store: scan failed")
 
 func (o *orderedNodes) Get(k uint64) (utreexo.Leaf, bool) { o.ops++; v, ok := o.m[k]; return v, ok }
-func (o *orderedNodes) Put(k uint64, v utreexo.Leaf)     { o.ops++; o.m[k] = v }
-func (o *orderedNodes) Delete(k uint64)                  { o.ops++; delete(o.m, k) }
-func (o *orderedNodes) Length() int                      { return len(o.m) }
+func (o *orderedNodes) Put(k uint64, v utreexo.Leaf)      { o.ops++; o.m[k] = v }
+func (o *orderedNodes) Delete(k uint64)                   { o.ops++; delete(o.m, k) }
+func (o *orderedNodes) Length() int                       { return len(o.m) }
 func (o *orderedNodes) ForEach(fn func(uint64, utreexo.Leaf) error) error {
 	keys := make([]uint64, 0, len(o.m))
 	for k := range o.m {
